@@ -20,9 +20,8 @@ NOT_DECIDED = ("byte-for-byte round trip of arbitrary escaped paths (value level
                "(behavioural).")
 
 
-def run(ctx):
-    prog, rep = ctx.prog, ctx.report
-
+def r_deps_unescaped(prog, rep, min_actions=3):
+    """shared with C08 (outputs are functions of the discovered inputs too)"""
     r = rep.rule("R-DEPS-UNESCAPED", "every actOnRuleDependency override that registers a dependency derives the key from the unescaped word; relative "
                                      "words are joined to the working directory first (shell tool, Ninja)", floor=3)
     acts = [f for f in prog.overriders("MakefileDepsParser::ParseActions::actOnRuleDependency") if f.name.split("::")[-1] == "actOnRuleDependency"]
@@ -65,13 +64,21 @@ def run(ctx):
                 rel_calls = [c for c in dd if c not in abs_calls]
                 ok = len(abs_calls) == 1 and len(rel_calls) == 1 and "absPath" in expr_str(arg_nodes(rel_calls[0])[0])
                 r.check(ok, "%s|absolute-and-relative-branches" % where, "", "absolute / relative words are not both registered", f)
-    if n_reg < 3:
+    if n_reg < min_actions:
         raise AnalysisBroken("only %d dependency-registering Makefile actions found" % n_reg)
     di = [f for f in prog.overriders("DependencyInfoParser::ParseActions::actOnInput") if f.name.split("::")[-1] == "actOnInput" and not relpath(f.file).startswith("unittests")]
     for f in di:
         dd = f.calls("discoveredDependency")
         ok = len(dd) == 1 and mentions(arg_nodes(dd[0])[0], {f.params[0]["did"]}) and "makeNode" in expr_str(arg_nodes(dd[0])[0])
         r.check(ok, "%s|dependency-info-input-registered" % owner_of(f), "", "dependency-info input is not registered as a node key", f)
+
+    return r
+
+
+def run(ctx):
+    prog, rep = ctx.prog, ctx.report
+
+    r_deps_unescaped(prog, rep)
 
     r = rep.rule("R-DEPS-ERRORS-FAIL", "every parse-error callback counts the error; the processing functions return `numErrors == 0`; a false result "
                                        "and a missing dependency file fail the command", floor=8)
